@@ -174,6 +174,10 @@ func c13(tier string) []*explore.Scenario {
 	}
 	out = append(out, c01FailedWriteOlder("C13", 1))
 	out = append(out, c13DegenerateMetadata(false), c13DegenerateMetadata(true))
+	// fine-grained mode (a scheduling point after every Unlock and every go statement) on streams whose first Read
+	// returns at once - a context that is already done, a connection that has already failed: whatever the
+	// stream's own goroutines do first, the client does not crash
+	out = append(out, donors("C13", fineGrained(c07PreDone("Bidi", "cancelled", true, 1), c07PreDone("SStream", "expired", true, 1), c07PreDone("CStream", "cancelled", false, 1)))...)
 	// the connection's read side ends with io.EOF itself (what a socket or pipe reports), a wrapped one, a context
 	// error: no call may read that as "the stream ended successfully" - no envelope said so
 	for _, ev := range []string{"eof", "wrapped-eof", "unexpected-eof", "canceled", "deadline"} {
